@@ -14,7 +14,7 @@ Definition aactive_count (a : acct) : nat := countb (acounted_live a) (a_n a).
 Record AInv (k : acfg) (a : acct) : Prop := mkAInv {
   ai_lc : forall s, (s < a_n a)%nat -> as_listened (a_st a s) = as_counted (a_st a s);
   ai_active : a_active a = Z.of_nat (aactive_count a);
-  ai_req : a_req a = (if ac_max_req k =? 0 then 0 else a_active a);
+  ai_req : a_req a = a_active a;
   ai_once : forall s, (s < a_n a)%nat ->
             as_incs (a_st a s) = (if as_counted (a_st a s) then 1 else 0)%nat /\
             as_decs (a_st a s) = (if as_counted (a_st a s) && negb (as_live (a_st a s)) then 1 else 0)%nat
@@ -23,12 +23,17 @@ Record AInv (k : acfg) (a : acct) : Prop := mkAInv {
 Definition policy_ok (k : acfg) : Prop := ap_listen_oneway (ac_pol k) = ap_count_oneway (ac_pol k).
 
 Lemma ainit_inv : forall k, AInv k ainit.
-Proof. intros k. constructor; cbn; try (intros; lia). destruct (ac_max_req k =? 0); reflexivity. Qed.
+Proof. intros k. constructor; cbn; try (intros; lia). Qed.
 
 Lemma areq_add_fields : forall k a d, a_n (areq_add k a d) = a_n a /\ a_st (areq_add k a d) = a_st a /\
   a_closed (areq_add k a d) = a_closed a /\ a_active (areq_add k a d) = a_active a /\
-  a_req (areq_add k a d) = (if ac_max_req k =? 0 then a_req a else a_req a + d).
-Proof. intros. unfold areq_add. destruct (ac_max_req k =? 0); cbn; auto. Qed.
+  a_req (areq_add k a d) = a_req a + d.
+Proof. intros. unfold areq_add. cbn. auto. Qed.
+
+Lemma areq_add_n : forall k a d, a_n (areq_add k a d) = a_n a.
+Proof. reflexivity. Qed.
+(* the proofs below go through areq_add_fields *)
+#[local] Opaque areq_add.
 
 Lemma adestroy_inv : forall k a s, AInv k a -> (s < a_n a)%nat -> AInv k (adestroy k s a).
 Proof.
@@ -60,8 +65,8 @@ Proof.
     destruct (Hst q F2 F1) as [S1 S2].
     constructor; auto.
     + rewrite F4. cbn. rewrite I2, Hcnt. unfold aactive_count. rewrite F1. change (a_n a1) with (a_n a).
-      rewrite (countb_ext (acounted_live q) (acounted_live a1)); [change (a_n (a1 <| a_active := a_active a1 - 1 |>)) with (a_n a); lia|]. intros i _. unfold acounted_live. rewrite F2. reflexivity.
-    + rewrite F5, F4. cbn. rewrite I3. destruct (ac_max_req k =? 0); lia.
+      change (acounted_live q) with (acounted_live a1). change (a_n (a1 <| a_active := a_active a1 - 1 |>)) with (a_n a). lia.
+    + rewrite F5, F4. cbn. rewrite I3. lia.
   - destruct (Hst a1 eq_refl eq_refl) as [S1 S2]. constructor; auto.
     cbn. rewrite I2, Hcnt. reflexivity.
 Qed.
@@ -69,7 +74,7 @@ Qed.
 Lemma adestroy_n : forall k a s, a_n (adestroy k s a) = a_n a.
 Proof.
   intros. unfold adestroy. destruct (as_live (a_st a s)); [|reflexivity]. destruct (as_listened (a_st a s)); [|reflexivity].
-  unfold areq_add. destruct (ac_max_req k =? 0); reflexivity.
+  rewrite areq_add_n. reflexivity.
 Qed.
 
 Lemma aclose_streams_inv : forall k c n a, AInv k a -> (n <= a_n a)%nat ->
@@ -116,7 +121,7 @@ Proof.
         assert (E : aactive_count q = aactive_count a1).
         { unfold aactive_count. rewrite F1. change (a_n a1) with (S (a_n a)). apply countb_ext. intros i _. unfold acounted_live. rewrite F2. reflexivity. }
         rewrite E, Hcnt. lia.
-      * rewrite F5, F4. cbn. rewrite I3. destruct (ac_max_req k =? 0); lia.
+      * rewrite F5, F4. cbn. rewrite I3. lia.
     + destruct (Hst a1 eq_refl eq_refl) as [S1 S2]. constructor; auto.
       change (a_active a1) with (a_active a). rewrite I2, Hcnt. reflexivity.
   - (* ASend *)
@@ -154,7 +159,7 @@ Qed.
 (* the statement used by Props/C10_pool.v *)
 Theorem acct_balanced : forall k ops, policy_ok k -> let a := arun k ops ainit in
   a_active a = Z.of_nat (aactive_count a) /\ 0 <= a_active a /\
-  a_req a = (if ac_max_req k =? 0 then 0 else a_active a) /\ 0 <= a_req a /\
+  a_req a = a_active a /\ 0 <= a_req a /\
   ((forall s, (s < a_n a)%nat -> as_live (a_st a s) = false) -> a_active a = 0 /\ a_req a = 0) /\
   (forall s, (s < a_n a)%nat ->
      (as_decs (a_st a s) <= as_incs (a_st a s) <= 1)%nat /\
@@ -162,10 +167,10 @@ Theorem acct_balanced : forall k ops, policy_ok k -> let a := arun k ops ainit i
      (as_live (a_st a s) = true -> as_decs (a_st a s) = 0%nat)).
 Proof.
   intros k ops Hp a. destruct (arun_inv k ops Hp) as [I1 I2 I3 I4]. fold a in I1, I2, I3, I4.
-  split; [exact I2|]. split; [lia|]. split; [exact I3|]. split; [rewrite I3; destruct (ac_max_req k =? 0); lia|]. split.
+  split; [exact I2|]. split; [lia|]. split; [exact I3|]. split; [rewrite I3; lia|]. split.
   - intros Hd. assert (aactive_count a = 0%nat).
     { unfold aactive_count. apply countb_zero. intros i Hi. unfold acounted_live. rewrite (Hd i Hi). reflexivity. }
-    rewrite I3, I2, H. destruct (ac_max_req k =? 0); auto.
+    rewrite I3, I2, H. auto.
   - intros s Hs. destruct (I4 s Hs) as [A B]. rewrite A, B.
     destruct (as_counted (a_st a s)), (as_live (a_st a s)); cbn; repeat split; intros; try lia; try discriminate.
 Qed.
